@@ -66,9 +66,9 @@ def run(ctx, col, tier):
              "pushed before the child frames, one enter and one leave call site per frame outside "
              "inner loops, child receives the parent's enter result, leave receives the popped "
              "child values from the same child list, start node's value returned", floor=12,
-             exhaustive=True)
+             exhaustive=True, shape=True)
     col.rule("R-FWD", "Tree.traverse wraps both callbacks with the same node-wrapper and forwards "
-             "them; Node.traverse forwards its own index as root", floor=3)
+             "them; Node.traverse forwards its own index as root", floor=3, shape=True)
     col.assumptions += ["list.append/pop are LIFO; dict preserves insertion order",
                         "callbacks supplied by users are outside the analysed program"]
     col.not_decided += ["values produced by the callbacks at run time"]
